@@ -45,6 +45,13 @@ def handle (toks : List String) : Option String :=
       let full := ls.length == 1
       pure ("|".intercalate (ls.map fun l => showLimited full (emitLimited m l)))
     | _ => pure "undecodable"
+  -- a `RecordTypeSet` built with `new` (no original encoding): `NSEC::new(root, types)` emitted afresh
+  | ["tsnew", types] => do
+    let ts ← (if types == "-" then some [] else (types.splitOn ",").mapM String.toNat?)
+    match emitRData 47 (.nsec Name.root { types := ts, orig := none }) (Enc.new []) with
+    | .ok _ e => pure ("ok " ++ toHex e.buf)
+    | .err _ _ => pure "err"
+    | .panic s => pure ("panic " ++ s)
   | ["resp", proto, adv, hex] => do
     let buf ← parseHex hex
     -- the request's EDNS as `Record::read` + `Edns::from` see it: payload clamped to ≥ 512
